@@ -299,6 +299,61 @@ def timeout_case(rng, rec, case):
         shutil.rmtree(root, ignore_errors=True)
 
 
+def lookup_case(rng, rec, case):
+    '''Executables that only the command itself can find: a script written
+    into the task's directory by the previous command (./step2.sh), and a
+    tool found through the PATH given in the subprocess arguments.'''
+    from valjean.cosette.run import RunTask
+    from valjean.cosette.env import Env
+    root = setup_root()
+    try:
+        name = rng.choice(NAMES)
+        code = rng.choice([0, 0, 3])
+        marker = os.path.join(root, 'markers', 'second')
+        how = rng.choice(['relative', 'path'])
+        if how == 'relative':
+            first = ("printf '#!/bin/sh\\necho OUT_second\\n: > %s\\n"
+                     "exit %d\\n' > step2.sh; chmod +x step2.sh; "
+                     "echo OUT_first" % (marker, code))
+            clis = [['sh', '-c', first], ['./step2.sh']]
+            kwargs = {}
+        else:
+            bindir = os.path.join(root, 'tools')
+            os.makedirs(bindir)
+            tool = os.path.join(bindir, 'vf-only-here')
+            with open(tool, 'w') as fil:
+                fil.write('#!/bin/sh\necho OUT_second\n: > %s\nexit %d\n'
+                          % (marker, code))
+            os.chmod(tool, 0o755)
+            clis = [['sh', '-c', 'echo OUT_first'], ['vf-only-here']]
+            kwargs = {'env': {'PATH': bindir + ':/usr/bin:/bin'}}
+        task = RunTask.from_clis(name, clis, **kwargs)
+        rec.count('lookup_cases')
+        try:
+            update, status = task.do(Env(), make_config(root))
+        except Exception as err:  # pylint: disable=broad-except
+            rec.violation(f'do-raised-{type(err).__name__}-for-an-executable-'
+                          f'only-the-command-finds', f'{how}: {err!r}', case)
+            return
+        entry = (update or {}).get(name) or {}
+        want_status = 'DONE' if code == 0 else 'FAILED'
+        if not os.path.exists(marker):
+            rec.violation('command-not-run', f'{name!r} ({how}): the second '
+                          'command was not run', case)
+        elif getattr(status, 'name', '') != want_status or \
+                list(entry.get('return_codes', [])) != [0, code]:
+            rec.violation('return-codes-differ', f'{name!r} ({how}): status '
+                          f'{status}, return codes '
+                          f'{entry.get("return_codes")}, expected [0, '
+                          f'{code}]', case)
+        elif read(entry['stdout']) != 'OUT_first\nOUT_second\n':
+            rec.violation('stdout-differs', f'{name!r} ({how}): captured '
+                          f'{read(entry["stdout"])!r}', case)
+        rec.seen(('lookup', how, code))
+    finally:
+        shutil.rmtree(root, ignore_errors=True)
+
+
 def relocate(cmds, root):
     '''Point the markers of pre-built commands to this root.'''
     out = []
@@ -513,6 +568,8 @@ def one(rng, idx, rec, case):
             twice_case(rng, rec, case)
         elif idx % 60 == 4:
             timeout_case(rng, rec, case)
+        elif idx % 60 == 16:
+            lookup_case(rng, rec, case)
         else:
             direct_case(rng, rec, case)
     else:
